@@ -85,12 +85,69 @@ func joinTags(a, b string) string {
 
 func hasUnique(tag string) bool {
 	for _, p := range strings.Split(tag, ";") {
-		p = strings.ToLower(strings.TrimSpace(p))
-		if p == "unique" || strings.HasPrefix(p, "uniqueindex") {
+		if strings.ToLower(strings.TrimSpace(p)) == "unique" {
+			return true
+		}
+		if d, ok := readIndexTag(p); ok && d.unique {
 			return true
 		}
 	}
 	return false
+}
+
+// idxDecl is what one index / uniqueIndex element of a gorm tag declares, as
+// read by THIS harness from the tag text (gorm's documented tag grammar:
+// elements separated by ';', blanks around them insignificant, keys case
+// insensitive, `index[:name][,option[:value]]...`) - deliberately not taken
+// from schema.ParseIndexes.
+type idxDecl struct {
+	raw      string
+	unique   bool
+	name     string // "" = generated
+	where    string
+	sort     string
+	collate  string
+	expr     string
+	priority int
+}
+
+func readIndexTag(part string) (idxDecl, bool) {
+	d := idxDecl{raw: part, priority: 10}
+	t := strings.TrimSpace(part)
+	key, rest := t, ""
+	if i := strings.Index(t, ":"); i >= 0 {
+		key, rest = t[:i], t[i+1:]
+	}
+	switch strings.ToLower(strings.TrimSpace(key)) {
+	case "index":
+	case "uniqueindex":
+		d.unique = true
+	default:
+		return d, false
+	}
+	opts := strings.Split(rest, ",")
+	d.name = strings.TrimSpace(opts[0])
+	for _, o := range opts[1:] {
+		k, v := o, ""
+		if i := strings.Index(o, ":"); i >= 0 {
+			k, v = o[:i], o[i+1:]
+		}
+		switch strings.ToLower(strings.TrimSpace(k)) {
+		case "unique":
+			d.unique = true
+		case "where":
+			d.where = strings.TrimSpace(v)
+		case "sort":
+			d.sort = strings.ToLower(strings.TrimSpace(v))
+		case "collate":
+			d.collate = strings.TrimSpace(v)
+		case "expression":
+			d.expr = strings.TrimSpace(v)
+		case "priority":
+			fmt.Sscan(strings.TrimSpace(v), &d.priority)
+		}
+	}
+	return d, true
 }
 
 func (c Case) models() (v1, v2 *tg.Model, err error) {
@@ -398,33 +455,229 @@ func declaredOf(m *tg.Model, markerTag string) []decl {
 	return out
 }
 
-// checkDeclared verifies that every index / unique / uniqueIndex / check the
-// model declares exists (PRAGMA) and, when rows are present (enforce), is
-// enforced: giving row m1 the value of row m0 in a unique column must fail,
-// an UPDATE to the text a check forbids must fail.
-func checkDeclared(e *h.Env, ds []decl, enforce bool, fail func(kind, detail string)) {
-	for _, d := range ds {
-		lp := strings.ToLower(d.tag)
-		switch {
-		case lp == "index" || strings.HasPrefix(lp, "index:"):
-			if !hasIndexOn(e, d.col, false) {
-				fail("index declared by the model is missing after AutoMigrate", "column "+d.col)
+type ixCol struct {
+	name string // "" for an expression
+	desc bool
+	coll string
+}
+type ixFull struct {
+	name    string
+	unique  bool
+	partial bool
+	sql     string
+	cols    []ixCol
+}
+
+// indexesFull reads every index of the table from PRAGMA index_list /
+// index_xinfo and its CREATE INDEX text from sqlite_master.
+func indexesFull(e *h.Env) []ixFull {
+	e.Rec.Pause()
+	defer e.Rec.Resume()
+	rows, err := e.SQL.Query("SELECT il.name, il.\"unique\", il.partial, coalesce(m.sql,'') FROM pragma_index_list('" + table + "') il LEFT JOIN sqlite_master m ON m.type='index' AND m.name = il.name")
+	if err != nil {
+		return nil
+	}
+	var out []ixFull
+	for rows.Next() {
+		var x ixFull
+		rows.Scan(&x.name, &x.unique, &x.partial, &x.sql)
+		out = append(out, x)
+	}
+	rows.Close()
+	for i := range out {
+		r2, err := e.SQL.Query("SELECT coalesce(name,''), \"desc\", coalesce(coll,'') FROM pragma_index_xinfo(?) WHERE key = 1 ORDER BY seqno", out[i].name)
+		if err != nil {
+			continue
+		}
+		for r2.Next() {
+			var c ixCol
+			r2.Scan(&c.name, &c.desc, &c.coll)
+			out[i].cols = append(out[i].cols, c)
+		}
+		r2.Close()
+	}
+	return out
+}
+
+func squash(s string) string { return strings.Join(strings.Fields(strings.ToLower(s)), " ") }
+
+// verifyIndex: an index with everything the declaration says exists on the
+// given key columns (in order); returns "" or what is wrong.
+func verifyIndex(e *h.Env, d idxDecl, cols []string) string {
+	var why []string
+	for _, ix := range indexesFull(e) {
+		if d.name != "" && ix.name != d.name {
+			continue
+		}
+		if len(ix.cols) != len(cols) {
+			continue
+		}
+		match := true
+		for i, c := range cols {
+			if d.expr != "" && len(cols) == 1 {
+				if ix.cols[i].name != "" || !strings.Contains(squash(ix.sql), squash(d.expr)) {
+					match = false
+				}
+			} else if !strings.EqualFold(ix.cols[i].name, c) {
+				match = false
 			}
-		case lp == "uniqueindex" || lp == "unique" || strings.HasPrefix(lp, "uniqueindex:"):
-			if !hasIndexOn(e, d.col, true) {
-				fail("unique index/constraint declared by the model is missing after AutoMigrate", "column "+d.col)
-			} else if enforce && atomic.AddInt64(&nvUniqueProbes, 1) > 0 && !duplicateRejected(e, d.col) {
-				fail("unique index/constraint declared by the model does not reject a duplicate", "column "+d.col)
+		}
+		if !match {
+			continue
+		}
+		var bad []string
+		if ix.unique != d.unique {
+			bad = append(bad, fmt.Sprintf("unique=%v", ix.unique))
+		}
+		if (d.where != "") != ix.partial || (d.where != "" && !strings.Contains(squash(ix.sql), "where "+squash(d.where))) {
+			bad = append(bad, fmt.Sprintf("partial=%v sql=%q", ix.partial, ix.sql))
+		}
+		if len(cols) == 1 && (d.sort == "desc") != ix.cols[0].desc {
+			bad = append(bad, fmt.Sprintf("desc=%v", ix.cols[0].desc))
+		}
+		if len(cols) == 1 && d.collate != "" && !strings.EqualFold(ix.cols[0].coll, d.collate) {
+			bad = append(bad, "collation="+ix.cols[0].coll)
+		}
+		if len(bad) == 0 {
+			return ""
+		}
+		why = append(why, ix.name+": "+strings.Join(bad, ", "))
+	}
+	if len(why) == 0 {
+		return "no index on " + strings.Join(cols, ",")
+	}
+	return "index differs from the declaration: " + strings.Join(why, "; ")
+}
+
+// checkDeclared verifies that every index / unique / uniqueIndex / check the
+// model declares exists with its options (PRAGMA + sqlite_master) and, when
+// rows are present (enforce), is enforced: giving row m1 the value of row m0
+// in a unique column must fail (for a partial unique index `where marker <>
+// 'm1'` that copy must succeed and the copy into m2 must fail), an UPDATE to
+// the text a check forbids must fail.
+func checkDeclared(e *h.Env, ds []decl, all []decl, enforce bool, fail func(kind, detail string)) {
+	// fullUnique: the model declares an unconditional unique on the column
+	fullUnique := func(col string) bool {
+		for _, dc := range all {
+			if dc.col != col {
+				continue
+			}
+			if strings.ToLower(strings.TrimSpace(dc.tag)) == "unique" {
+				return true
+			}
+			if d, ok := readIndexTag(dc.tag); ok && d.unique && d.where == "" {
+				return true
+			}
+		}
+		return false
+	}
+	// declarations that share an explicit index name form one composite index
+	type member struct {
+		col string
+		d   idxDecl
+		seq int
+	}
+	groups := map[string][]member{}
+	var order []string
+	for i, dc := range ds {
+		lp := strings.ToLower(strings.TrimSpace(dc.tag))
+		if d, ok := readIndexTag(dc.tag); ok {
+			k := d.name
+			if k == "" {
+				k = fmt.Sprintf("\x00%d", i)
+			}
+			if _, seen := groups[k]; !seen {
+				order = append(order, k)
+			}
+			groups[k] = append(groups[k], member{dc.col, d, i})
+			continue
+		}
+		switch {
+		case lp == "unique":
+			atomic.AddInt64(&nvDeclChecks, 1)
+			if !hasIndexOn(e, dc.col, true) {
+				fail("unique index/constraint declared by the model is missing after AutoMigrate", "column "+dc.col)
+			} else if enforce && atomic.AddInt64(&nvUniqueProbes, 1) > 0 && !duplicateRejected(e, dc.col) {
+				fail("unique index/constraint declared by the model does not reject a duplicate", "column "+dc.col)
 			}
 		case strings.HasPrefix(lp, "check:"):
 			if enforce {
-				forbidden := d.tag[strings.LastIndex(d.tag, "'")-2 : strings.LastIndex(d.tag, "'")]
+				atomic.AddInt64(&nvDeclChecks, 1)
+				forbidden := dc.tag[strings.LastIndex(dc.tag, "'")-2 : strings.LastIndex(dc.tag, "'")]
 				if !checkEnforced(e, forbidden) {
-					fail("check constraint declared by the model is not enforced after AutoMigrate", d.tag)
+					fail("check constraint declared by the model is not enforced after AutoMigrate", dc.tag)
 				}
 			}
 		}
 	}
+	for _, k := range order {
+		ms := groups[k]
+		// key columns by priority, then declaration order (Marker precedes the fields)
+		for i := 1; i < len(ms); i++ {
+			for j := i; j > 0 && (ms[j].d.priority < ms[j-1].d.priority); j-- {
+				ms[j], ms[j-1] = ms[j-1], ms[j]
+			}
+		}
+		var cols []string
+		d := ms[0].d
+		for _, m := range ms {
+			cols = append(cols, m.col)
+			d.unique = d.unique || m.d.unique
+		}
+		atomic.AddInt64(&nvDeclChecks, 1)
+		nvSpellings.Add(squash(ms[0].d.raw))
+		kind := "index"
+		if d.unique {
+			kind = "unique index"
+		}
+		if msg := verifyIndex(e, d, cols); msg != "" {
+			fail(kind+" declared by the model is missing or differs after AutoMigrate", fmt.Sprintf("tag %q on %s: %s", d.raw, strings.Join(cols, ","), msg))
+			continue
+		}
+		if !enforce || !d.unique || len(cols) != 1 || d.expr != "" {
+			continue
+		}
+		atomic.AddInt64(&nvUniqueProbes, 1)
+		switch {
+		case d.where == "":
+			if !duplicateRejected(e, cols[0]) {
+				fail("unique index declared by the model does not reject a duplicate", "column "+cols[0])
+			}
+		case cols[0] != tg.MarkerCol && squash(d.where) == "marker <> 'm1'" && !fullUnique(cols[0]):
+			if msg := partialProbe(e, cols[0]); msg != "" {
+				fail("partial unique index declared by the model is not enforced as declared", fmt.Sprintf("tag %q on %s: %s", d.raw, cols[0], msg))
+			}
+		}
+	}
+}
+
+// partialProbe (unique index WHERE marker <> 'm1'): rows m0, m1, m2 hold
+// distinct non-NULL values; copying m0's value into m1 (outside the index)
+// must be accepted, copying it into m2 must be rejected. Both are undone.
+func partialProbe(e *h.Env, col string) string {
+	e.Rec.Pause()
+	defer e.Rec.Resume()
+	var n int
+	if err := e.SQL.QueryRow("SELECT count(*) FROM `" + table + "` WHERE `marker` IN ('m0','m1','m2') AND `" + col + "` IS NOT NULL").Scan(&n); err != nil || n < 3 {
+		return ""
+	}
+	atomic.AddInt64(&nvPartialProbes, 1)
+	try := func(target string) error {
+		tx, err := e.SQL.Begin()
+		if err != nil {
+			return nil
+		}
+		defer tx.Rollback()
+		_, err = tx.Exec("UPDATE `"+table+"` SET `"+col+"` = (SELECT `"+col+"` FROM `"+table+"` WHERE `marker` = 'm0') WHERE `marker` = ?", target)
+		return err
+	}
+	if err := try("m1"); err != nil {
+		return "a duplicate in a row outside the partial condition was rejected: " + err.Error()
+	}
+	if err := try("m2"); err == nil || !strings.Contains(strings.ToLower(err.Error()), "constraint") {
+		return fmt.Sprintf("a duplicate inside the partial condition was accepted (err=%v)", err)
+	}
+	return ""
 }
 
 // duplicateRejected: copying the (non-NULL) value of row m0 into row m1 must
@@ -442,7 +695,8 @@ func duplicateRejected(e *h.Env, col string) bool {
 }
 
 // non-vacuity counters of the declared-constraint and foreign-key checks
-var nvFKPresent, nvFKAbsent, nvUniqueProbes, nvFlagged int64
+var nvFKPresent, nvFKAbsent, nvUniqueProbes, nvFlagged, nvDeclChecks, nvPartialProbes int64
+var nvSpellings mc.Set
 
 // foreignKeys: number of foreign key constraints of the table.
 func foreignKeys(e *h.Env) int {
@@ -652,7 +906,7 @@ func (ck *checker) check(w *worker, c Case) {
 		fail("migrate-v1", "a column excluded from migration was created", fmt.Sprint(g))
 	}
 	declV1 := declaredOf(v1, c.MarkerTag)
-	checkDeclared(e, declV1, false, func(k, d string) { fail("declared-v1", k, d) })
+	checkDeclared(e, declV1, declV1, false, func(k, d string) { fail("declared-v1", k, d) })
 	checkFK(e, v1, c.Flags, func(k, d string) { fail("declared-v1", k, d) })
 
 	// 2. insert rows of v1
@@ -699,7 +953,7 @@ func (ck *checker) check(w *worker, c Case) {
 		fail("insert-v1", "wrong number of rows stored", fmt.Sprintf("%d, want %d", len(before), nrows))
 		return
 	}
-	checkDeclared(e, declV1, true, func(k, d string) { fail("declared-v1", k, d) })
+	checkDeclared(e, declV1, declV1, true, func(k, d string) { fail("declared-v1", k, d) })
 	if after := dumpCols(e, v1cols); strings.Join(after, "\n") != strings.Join(before, "\n") {
 		fail("declared-v1", "a constraint declared by the model did not stop a violating UPDATE", fmt.Sprintf("before:\n%s\nafter:\n%s", strings.Join(before, "\n"), strings.Join(after, "\n")))
 		return
@@ -764,7 +1018,7 @@ func (ck *checker) check(w *worker, c Case) {
 		return
 	}
 	// what v1 declared is still there, the foreign key follows the config
-	checkDeclared(e, declV1, true, func(k, d string) { fail("declared-after-v2", k, d) })
+	checkDeclared(e, declV1, declV1, true, func(k, d string) { fail("declared-after-v2", k, d) })
 	checkFK(e, v2, c.Flags, func(k, d string) { fail("declared-after-v2", k, d) })
 	// what was added is present
 	{
@@ -794,25 +1048,13 @@ func (ck *checker) check(w *worker, c Case) {
 				}
 			}
 		}
+		var added []decl
 		for _, p := range strings.Split(c.NewTag, ";") {
-			p = strings.TrimSpace(p)
-			lp := strings.ToLower(p)
-			switch {
-			case lp == "index":
-				if !hasIndexOn(e, col, false) {
-					fail("present", "index added to the model is missing after AutoMigrate", "column "+col)
-				}
-			case lp == "uniqueindex" || lp == "unique":
-				if !hasIndexOn(e, col, true) {
-					fail("present", "unique index/constraint added to the model is missing after AutoMigrate", "column "+col)
-				}
-			case strings.HasPrefix(lp, "check:"):
-				forbidden := p[strings.LastIndex(p, "'")-2 : strings.LastIndex(p, "'")]
-				if !checkEnforced(e, forbidden) {
-					fail("present", "check constraint added to the model is not enforced after AutoMigrate", p)
-				}
+			if p = strings.TrimSpace(p); p != "" {
+				added = append(added, decl{col, p})
 			}
 		}
+		checkDeclared(e, added, append(append([]decl{}, declV1...), added...), true, func(k, d string) { fail("present", k, d) })
 	}
 
 	// 5. read old rows into v2 structs; insert v2 records and read them back
@@ -1010,45 +1252,83 @@ func textual(sp *tg.Spec) bool {
 	return false
 }
 
+// index tag spellings. basic = the two plain forms; full = the same
+// declarations in other spellings (blank after ';', case) and with options.
+var (
+	idxBasic       = []string{"index"}
+	uniqBasic      = []string{"uniqueIndex"}
+	idxFull        = []string{"index", " index", "INDEX", "index:ix_fld", "index:,sort:desc", "index:,collate:NOCASE", "index:,where:marker <> 'm1'", "index:,expression:lower(marker)", "index:,priority:3"}
+	uniqFull       = []string{"uniqueIndex", " uniqueIndex", "uniqueindex", "index:,unique", "index:ux_fld,unique", "uniqueIndex:,where:marker <> 'm1'", "uniqueIndex:,sort:desc"}
+	idxMarkerFull  = []string{"index", " INDEX", "index:ix_mk,sort:desc", "index:,where:marker <> 'm1'"}
+	uniqMarkerFull = []string{"uniqueIndex", " uniqueindex", "index:ux_mk,unique", "uniqueIndex:,where:marker <> 'm1'"}
+)
+
+func isIndexTag(t string) bool {
+	for _, p := range strings.Split(t, ";") {
+		if _, ok := readIndexTag(p); ok {
+			return true
+		}
+	}
+	return false
+}
+
 // fieldTagVariants: tag variants for a field of kind sp that exists in v1.
-func fieldTagVariants(sp *tg.Spec) []string {
+func fieldTagVariants(sp *tg.Spec, full bool) []string {
 	if multiCol(sp) {
 		return []string{""}
 	}
-	out := []string{"", "index", "uniqueIndex", "unique", checkField}
-	if len(distinctVals(sp, 0)) < 2 {
-		out = []string{"", "index", checkField}
+	idx, uniq := idxBasic, uniqBasic
+	if full {
+		idx, uniq = idxFull, uniqFull
 	}
+	out := append([]string{""}, idx...)
+	if len(distinctVals(sp, 0)) >= 2 {
+		out = append(out, uniq...)
+		out = append(out, "unique")
+	}
+	out = append(out, checkField)
 	if !nullable(sp) || sp.Serializer == "json" {
 		out = append(out, "not null", "not null;index")
+		if full {
+			out = append(out, "not null; index")
+		}
 	}
 	if textual(sp) {
 		out = append(out, "size:64", "size:64;uniqueIndex")
+		if full {
+			out = append(out, "size:64; uniqueIndex")
+		}
 	}
 	return out
 }
 
 // addedTagVariants: tag variants for a field that v2 adds.
-func addedTagVariants(sp *tg.Spec) []string {
+func addedTagVariants(sp *tg.Spec, full bool) []string {
 	if multiCol(sp) {
 		return []string{""}
 	}
-	out := []string{"", "index", checkField}
+	idx, uniq := idxBasic, uniqBasic
+	if full {
+		idx, uniq = idxFull, uniqFull
+	}
+	out := append([]string{""}, idx...)
+	out = append(out, checkField)
 	if len(distinctVals(sp, 0)) >= 2 && sp.DefaultLit == nil {
 		// (existing rows all receive the literal default: no unique there)
-		out = append(out, "uniqueIndex", "unique")
+		out = append(out, uniq...)
+		out = append(out, "unique")
 	}
 	if sp.DefaultLit != nil && !nullable(sp) {
 		out = append(out, "not null") // SQLite can add a NOT NULL column only with a default
 	}
 	if textual(sp) {
-		out = append(out, "size:64")
+		out = append(out, "size:64", "size:64; index")
 	}
 	return out
 }
 
 // tagChanges: tags that v2 adds to the existing field.
-func tagChanges(sp *tg.Spec, extra string) []string {
+func tagChanges(sp *tg.Spec, extra string, full bool) []string {
 	if multiCol(sp) {
 		return nil
 	}
@@ -1056,8 +1336,13 @@ func tagChanges(sp *tg.Spec, extra string) []string {
 	if textual(sp) && !strings.Contains(extra, "size:") {
 		out = append(out, "size:32") // SQLite text has no length: nothing to alter, nothing may change
 	}
-	for _, t := range []string{"index", "uniqueIndex", "unique", checkField} {
-		if strings.Contains(extra, "ndex") && strings.Contains(t, "ndex") {
+	idx, uniq := idxBasic, uniqBasic
+	if full {
+		idx, uniq = idxFull, uniqFull
+	}
+	cands := append(append(append([]string{}, idx...), uniq...), "unique", checkField)
+	for _, t := range cands {
+		if isIndexTag(extra) && isIndexTag(t) {
 			continue // one index per column in this alphabet
 		}
 		if strings.Contains(extra, t) || (t == "unique" && hasUnique(extra)) {
@@ -1071,7 +1356,13 @@ func tagChanges(sp *tg.Spec, extra string) []string {
 	return out
 }
 
-var markerChanges = []string{"index", "uniqueIndex", "unique", checkMarker}
+func markerChangesFor(full bool) []string {
+	if !full {
+		return []string{"index", "uniqueIndex", "unique", checkMarker}
+	}
+	out := append(append([]string{}, idxMarkerFull...), uniqMarkerFull...)
+	return append(out, "unique", checkMarker)
+}
 
 func conflict(a, b *tg.Spec) bool {
 	return a != nil && a == b && a.OnlyOnce()
@@ -1112,11 +1403,16 @@ func enumerate(thorough bool) []Case {
 	}
 	refAdded := []string{"int64", "string"}
 	type v1f struct{ spec, extra, marker string }
-	refV1 := []v1f{{"", "", ""}, {"", "", "uniqueIndex"}, {"int64", "", ""}, {"string", "index", ""}, {"default_string", "not null", ""}, {"time", "unique", ""}}
+	refV1 := []v1f{{"", "", ""}, {"", "", "uniqueIndex"}, {"int64", "", ""}, {"string", "index", ""}, {"default_string", "not null", ""}, {"time", "unique", ""},
+		// one composite index declared on Marker and on the field (shared name),
+		// key order by priority, then by declaration order
+		{"int64", "index:ix_comp", "index:ix_comp"}, {"string", "index:ix_comp,priority:1", "index:ix_comp,priority:2"}, {"int64", "uniqueIndex:ux_comp", "uniqueIndex:ux_comp"}}
 
 	// sweeps enumerates sweep A and sweep B for one key configuration and one
 	// flag combination; kinds restricts the v1 kinds of sweep A, product makes
 	// sweep A the full v1 x added-field product, sweepB switches sweep B on.
+	// full(sp): the kind gets every index spelling / option, not only the basic two
+	full := func(sp *tg.Spec) bool { return thorough || sp == nil || sp.Name == "int64" || sp.Name == "string" }
 	sweeps := func(key, flags string, kinds func(*tg.Spec) bool, product, sweepB bool) {
 		// sweep A: every v1 (kind x tag variant) x changes to the existing
 		// columns + two reference added fields
@@ -1124,14 +1420,14 @@ func enumerate(thorough bool) []Case {
 			if !usable(sp, false) || !kinds(sp) {
 				continue
 			}
-			for _, extra := range fieldTagVariants(sp) {
+			for _, extra := range fieldTagVariants(sp, full(sp)) {
 				base := Case{Key: key, Spec: sp.Name, Extra: extra, Flags: flags}
-				for _, t := range tagChanges(sp, extra) {
+				for _, t := range tagChanges(sp, extra, full(sp)) {
 					c := base
 					c.Change, c.NewTag = "tagfield", t
 					add(c)
 				}
-				for _, t := range markerChanges {
+				for _, t := range markerChangesFor(full(sp) && extra == "") {
 					c := base
 					c.Change, c.NewTag = "tagmarker", t
 					add(c)
@@ -1146,7 +1442,7 @@ func enumerate(thorough bool) []Case {
 						if conflict(sp, ns) || !usable(ns, true) {
 							continue
 						}
-						for _, t := range addedTagVariants(ns) {
+						for _, t := range addedTagVariants(ns, false) {
 							c := base
 							c.Change, c.NewSpec, c.NewTag = "addfield", ns.Name, t
 							add(c)
@@ -1171,13 +1467,13 @@ func enumerate(thorough bool) []Case {
 				if (r.spec != "" && conflict(tg.SpecByName(r.spec), ns)) || !usable(ns, true) {
 					continue
 				}
-				for _, t := range addedTagVariants(ns) {
+				for _, t := range addedTagVariants(ns, full(ns) && r.spec == "" && r.marker == "") {
 					c := base
 					c.Change, c.NewSpec, c.NewTag = "addfield", ns.Name, t
 					add(c)
 				}
 			}
-			for _, t := range markerChanges {
+			for _, t := range markerChangesFor(r.spec == "") {
 				if r.marker != "" {
 					continue
 				}
@@ -1193,11 +1489,6 @@ func enumerate(thorough bool) []Case {
 
 	// default config: all plain key configurations (in thorough the large
 	// product comes last so that an internal deadline cuts there)
-	if !thorough {
-		for ki := range tg.Keys {
-			sweeps(tg.Keys[ki].Name, "", all, false, true)
-		}
-	}
 	if thorough {
 		// the relation model and every non-default flag combination: complete
 		// sweeps A and B over every kind, for every key configuration
@@ -1219,6 +1510,11 @@ func enumerate(thorough bool) []Case {
 		for _, fl := range flagCombos {
 			sweeps("autoid", fl, slice, false, false)
 			sweeps(rel, fl, slice, false, false)
+		}
+		// default config: all plain key configurations (last: an internal
+		// deadline on an overloaded machine then cuts the largest part)
+		for ki := range tg.Keys {
+			sweeps(tg.Keys[ki].Name, "", all, false, true)
 		}
 	}
 	return out
@@ -1271,7 +1567,7 @@ func main() {
 	}
 	wg.Wait()
 	st := ck.st
-	if run.NumViolations() == 0 {
+	if run.NumViolations() == 0 && atomic.LoadInt32(&timedOut) == 0 {
 		if st.idempotentChecks < 1000 {
 			run.HarnessError("vacuous: only %d idempotence checks", st.idempotentChecks)
 		}
@@ -1283,6 +1579,9 @@ func main() {
 		}
 		if nvFKPresent < 20 || nvFKAbsent < 20 || nvFlagged < 100 || nvUniqueProbes < 100 {
 			run.HarnessError("vacuous: fk-present checks %d, fk-absent checks %d, histories with a non-default config %d, unique enforcement probes %d", nvFKPresent, nvFKAbsent, nvFlagged, nvUniqueProbes)
+		}
+		if nvSpellings.Len() < 15 || nvPartialProbes < 20 {
+			run.HarnessError("vacuous: %d index tag spellings verified, %d partial-index enforcement probes", nvSpellings.Len(), nvPartialProbes)
 		}
 		if ck.outcomes.Len() < 4 {
 			run.HarnessError("vacuous: only %d distinct migration outcomes", ck.outcomes.Len())
@@ -1297,7 +1596,7 @@ func main() {
 	run.Finish(map[string]interface{}{
 		"evaluations":                           st.histories,
 		"distinct_nontrivial":                   ck.distinct.Len(),
-		"rule":                                  "histories migrate(v1) -> insert rows -> migrate(v1) -> migrate(v2) -> read old rows, insert+read v2 records (one per catalogue value of the added kind) -> migrate(v2); v1 = key configuration (4) x field kind x tag variant; quick: sweep A = every v1 x {tags added to the field, tags added to Marker, every v2 variant of the field that alters an existing column (default added; for the twice-embedded struct on the first, the second or both twins), two reference added fields}, sweep B = 6 reference v1 x every added field kind x tag variant; thorough: every v1 x every added kind x tag variant with the default config, plus complete sweeps A and B over every kind for the belongs-to model and for each non-default combination of DisableForeignKeyConstraintWhenMigrating / IgnoreRelationshipsWhenMigrating on all 5 key configurations; quick covers the flag combinations and the belongs-to model on a slice (every tag variant x 4 kinds x every sweep-A change). distinct_nontrivial = distinct histories that ran to the end with every oracle step evaluated and no violation",
+		"rule":                                  "histories migrate(v1) -> insert rows -> migrate(v1) -> migrate(v2) -> read old rows, insert+read v2 records (one per catalogue value of the added kind) -> migrate(v2); v1 = key configuration (4) x field kind x tag variant; quick: sweep A = every v1 x {tags added to the field, tags added to Marker, every v2 variant of the field that alters an existing column (default added; for the twice-embedded struct on the first, the second or both twins), two reference added fields}, sweep B = 6 reference v1 x every added field kind x tag variant; thorough: every v1 x every added kind x tag variant with the default config, plus complete sweeps A and B over every kind for the belongs-to model and for each non-default combination of DisableForeignKeyConstraintWhenMigrating / IgnoreRelationshipsWhenMigrating on all 5 key configurations; quick covers the flag combinations and the belongs-to model on a slice (every tag variant x 4 kinds x every sweep-A change). The set of indexes/constraints a model declares is read from the tag text by the harness itself (spellings: blank after the separator, upper/lower case, name, unique option, where, sort, collate, expression, priority, composite over Marker+field) and compared with PRAGMA index_list/index_xinfo and the CREATE INDEX text in sqlite_master. distinct_nontrivial = distinct histories that ran to the end with every oracle step evaluated and no violation",
 		"samples":                               ck.samples.List(),
 		"exhaustive":                            atomic.LoadInt32(&timedOut) == 0,
 		"histories_altering_an_existing_column": st.alterHistories,
@@ -1305,6 +1604,9 @@ func main() {
 		"foreign_key_present_checks_default_config":            nvFKPresent,
 		"foreign_key_absent_checks_flagged_config":             nvFKAbsent,
 		"unique_enforcement_probes":                            nvUniqueProbes,
+		"declared_constraint_checks":                           nvDeclChecks,
+		"distinct_index_tag_spellings_verified":                nvSpellings.Len(),
+		"partial_unique_index_enforcement_probes":              nvPartialProbes,
 		"of_which_migrate_v2_issued_ddl":                       st.alterWithDDL,
 		"histories_with_field_excluded_from_migration":         st.ignoredFieldHistories,
 		"histories_completed":                                  st.completed,
